@@ -11,4 +11,36 @@ theorem taskCollidesSrc_eq (sc : Scene R) (safety : Safety R) (i j : Nat) :
     SrcColl.taskCollidesSrc (safety.minDistance i j) (sc.intersects i j)
       (sc.aabbNear i j (safety.minDistance i j)) (sc.distance i j) = taskCollides sc safety i j := rfl
 
+/-- `check_required` (with the translated `min_distance`) -/
+theorem checkRequiredSrc_eq (own : Safety R) (skip : List Nat) (i j : Nat) :
+    SrcColl.checkRequiredSrc own skip i j = checkRequired own skip i j := rfl
+
+theorem ite_ite_nil {β : Type} (a b : Bool) (x : List β) :
+    (if a = true then (if b = true then x else []) else []) = if (a && b) = true then x else [] := by
+  cases a <;> cases b <;> rfl
+
+theorem flatMap_ite_single {α β : Type} (l : List α) (c : α → Bool) (g : α → β) :
+    l.flatMap (fun x => if c x = true then [g x] else []) = l.filterMap (fun x => if c x = true then some (g x) else none) := by
+  induction l with
+  | nil => rfl
+  | cons a t ih =>
+    simp only [List.flatMap_cons, List.filterMap_cons, ih]
+    cases c a <;> simp
+
+theorem flatMap_guard_single {α β : Type} (l : List α) (p : α → Prop) [DecidablePred p] (c : α → Bool) (g : α → β) :
+    l.flatMap (fun x => if p x then (if c x = true then [g x] else []) else []) =
+      l.filterMap (fun x => if (decide (p x) && c x) = true then some (g x) else none) := by
+  induction l with
+  | nil => rfl
+  | cons a t ih =>
+    simp only [List.flatMap_cons, List.filterMap_cons, ih]
+    by_cases h : p a <;> cases c a <;> simp [h]
+
+/-- the task list of `detect_collisions_with_skips`: nested `for` / `if` / `if let` blocks of the source, read as list
+comprehensions, give the model's `tasks` (same pairs, same push order) -/
+theorem tasksSrc_eq (sc : Scene R) (own : Safety R) (skip : List Nat) :
+    SrcColl.tasksSrc sc own skip = tasks sc own skip := by
+  unfold SrcColl.tasksSrc tasks
+  simp only [ite_ite_nil, flatMap_ite_single, flatMap_guard_single, Bool.and_assoc]
+
 end Opw
